@@ -39,7 +39,7 @@ func (c05) Plan(tier string, seed int64) []mon.Workload {
 	if tier == "thorough" {
 		m = 60
 	}
-	return []mon.Workload{
+	ws := []mon.Workload{
 		{Name: "mutate", N: 900 * m},
 		{Name: "tokens", N: 4000 * m},
 		{Name: "truncate", N: 60 * m},
@@ -51,6 +51,12 @@ func (c05) Plan(tier string, seed int64) []mon.Workload {
 		{Name: "concurrent-spellings", N: 12 * m, Procs: 8, MaxWorkers: 2},
 		{Name: "many-diagnostics", N: int64(len(c05DiagStmts) * 40), Exhaustive: true},
 	}
+	for i := range ws {
+		// a parse takes microseconds to milliseconds; one that is still open
+		// after 45 s of wall clock (twice, see mon.Run) did not terminate
+		ws[i].CaseTimeoutS = 45
+	}
+	return ws
 }
 
 var c05Numbers = []string{"0x", "0X", "1e", "1e+", "1e-", "1E", "0x1.8", "08", "09.5", "1__0", "1_0", "0x1g", "1.2.3", "1..2", ".5", "5.", "0xe+1",
